@@ -321,7 +321,7 @@ func plans() map[string]*propertyPlan {
 		pl.thorough = append(pl.thorough, spec{family: "latefaults", cases: t, cpuS: 7200, asKB: 8 << 20, wallS: 9000})
 		pl.evaluations = "sets,late_fault_sets"
 		pl.minObserved["late_fault_sets"] = q / 2
-		pl.rule += "; plus the late-fault family: 13 templates of faults that arise only during augment merging or deviation application, or inside rpc/action input/output (colliding augments from two modules, collision with a uses-provided child, childless targets, a missing target behind an augment chain, a bogus step under an rpc, unknown type / bad range / unknown grouping inside input or output, an unresolvable replacement type, a doubly removed node), with random padding and load order - Process must report an error"
+		pl.rule += "; plus the late-fault family: 41 templates of faults that arise only during augment merging or deviation application, or inside rpc/action input/output (colliding augments from two modules, collision with a uses-provided child, childless targets, a missing target behind an augment chain, a bogus step under an rpc, unknown type / bad range / unknown grouping inside input or output, an unresolvable replacement type, a doubly removed node), with random padding and load order - Process must report an error"
 		return pl
 	}
 	c17 := treePlan("on every set whose trees match, 60 sampled (start, target) pairs: absolute prefixed path from the start node's defining module, relative path through the common ancestor, and the absolute path with one step replaced by a fresh name (must return nothing); the input and output of every rpc and action are looked up, written or not (Parent, Path and the way back through ..); plus the header sets of C13 (several revisions of one module, importer with or without revision-date, all load orders): an absolute path whose first prefix is that import resolves in exactly the revision the import denotes", 30000, 400000)
